@@ -47,6 +47,7 @@ func checkC02(ctx *Ctx, r *Report) {
 	c11FifthRound(ctx, r)
 	c02GoConstructorNames(ctx, r)
 	c02FourthHunt(ctx, r)
+	c16FourthHunt(ctx, r) // a union branch referring to a constant: the Go builder does not type-check
 	c02RuntimeGuard(ctx, r)
 	c02SortedSearch(ctx, r)
 	c02SortedSearchSelfTest(ctx, r)
